@@ -135,24 +135,24 @@ inline void add_into_receiver_ops(ClassAdapter<D>& A) {
   // representation, but adding / testing ANY of the receiver's own constraints leaves the value unchanged, so
   // the twin -- the same call with a copy of the element -- is representation independent)
   alias_pair(A, "add_constraint(first of own constraints())", false, [](D& d, const D*, bool al) {
-    const Constraint_System& cs = d.constraints(); if (sys_empty(cs)) return std::string("skipped");
-    if (al) { const Constraint& c = *cs.begin(); d.add_constraint(c); } else { Constraint c(*cs.begin()); d.add_constraint(c); } return std::string("done"); });
+    const Constraint_System& cs = d.constraints(); if (sys_empty(cs)) return std::string();
+    if (al) { const Constraint& c = *cs.begin(); d.add_constraint(c); } else { Constraint c(*cs.begin()); d.add_constraint(c); } return std::string(); });
   alias_pair(A, "refine_with_constraint(last of own minimized_constraints())", false, [](D& d, const D*, bool al) {
-    const Constraint_System& cs = d.minimized_constraints(); if (sys_empty(cs)) return std::string("skipped");
+    const Constraint_System& cs = d.minimized_constraints(); if (sys_empty(cs)) return std::string();
     Constraint_System::const_iterator i = cs.begin(), n = i; for (++n; n != cs.end(); ++n) i = n;
-    if (al) { const Constraint& c = *i; d.refine_with_constraint(c); } else { Constraint c(*i); d.refine_with_constraint(c); } return std::string("done"); });
+    if (al) { const Constraint& c = *i; d.refine_with_constraint(c); } else { Constraint c(*i); d.refine_with_constraint(c); } return std::string(); });
   alias_pair(A, "relation_with(first of own constraints())", false, [](D& d, const D*, bool al) {
-    const Constraint_System& cs = d.constraints(); if (sys_empty(cs)) return std::string("skipped");
+    const Constraint_System& cs = d.constraints(); if (sys_empty(cs)) return std::string("true");
     if (al) { const Constraint& c = *cs.begin(); return b2s(d.relation_with(c).implies(PPL::Poly_Con_Relation::is_included())); }
     Constraint c(*cs.begin()); return b2s(d.relation_with(c).implies(PPL::Poly_Con_Relation::is_included())); });
   A.muts.push_back(M("add_congruences(arg.congruences())", true, [](D& d, const D* a) { d.add_congruences(a->congruences()); return std::string(); }));
   A.muts.push_back(M("refine_with_congruences(arg.minimized_congruences())", true, [](D& d, const D* a) { d.refine_with_congruences(a->minimized_congruences()); return std::string(); }));
   alias_pair(A, "add_congruence(first of own congruences())", false, [](D& d, const D*, bool al) {
-    const Congruence_System& cs = d.congruences(); if (sys_empty(cs)) return std::string("skipped");
-    if (al) { const Congruence& c = *cs.begin(); d.add_congruence(c); } else { Congruence c(*cs.begin()); d.add_congruence(c); } return std::string("done"); });
+    const Congruence_System& cs = d.congruences(); if (sys_empty(cs)) return std::string();
+    if (al) { const Congruence& c = *cs.begin(); d.add_congruence(c); } else { Congruence c(*cs.begin()); d.add_congruence(c); } return std::string(); });
   alias_pair(A, "refine_with_congruence(first of own minimized_congruences())", false, [](D& d, const D*, bool al) {
-    const Congruence_System& cs = d.minimized_congruences(); if (sys_empty(cs)) return std::string("skipped");
-    if (al) { const Congruence& c = *cs.begin(); d.refine_with_congruence(c); } else { Congruence c(*cs.begin()); d.refine_with_congruence(c); } return std::string("done"); });
+    const Congruence_System& cs = d.minimized_congruences(); if (sys_empty(cs)) return std::string();
+    if (al) { const Congruence& c = *cs.begin(); d.refine_with_congruence(c); } else { Congruence c(*cs.begin()); d.refine_with_congruence(c); } return std::string(); });
   A.muts.push_back(M("assign(D(arg.constraints()))", true, [](D& d, const D* a) { d = D(a->constraints()); return std::string(); }));
   A.muts.push_back(M("assign(D(arg.congruences()))", true, [](D& d, const D* a) { d = D(a->congruences()); return std::string(); }));
 }
@@ -254,14 +254,14 @@ inline void add_domain_specific(ClassAdapter<PH>& A, const PPL::Polyhedron*) {
   A.muts.push_back(M("add_generators(arg.generators())", true, [](D& d, const D* a) { d.add_generators(a->generators()); return std::string(); }));
   A.muts.push_back(M("add_generators(arg.minimized_generators())", true, [](D& d, const D* a) { d.add_generators(a->minimized_generators()); return std::string(); }));
   alias_pair(A, "add_generator(first of own generators())", false, [](D& d, const D*, bool al) {
-    const Generator_System& gs = d.generators(); if (sys_empty(gs)) return std::string("skipped");
-    if (al) { const Generator& g = *gs.begin(); d.add_generator(g); } else { Generator g(*gs.begin()); d.add_generator(g); } return std::string("done"); });
+    const Generator_System& gs = d.generators(); if (sys_empty(gs)) return std::string();
+    if (al) { const Generator& g = *gs.begin(); d.add_generator(g); } else { Generator g(*gs.begin()); d.add_generator(g); } return std::string(); });
   alias_pair(A, "add_generator(last of own minimized_generators())", false, [](D& d, const D*, bool al) {
-    const Generator_System& gs = d.minimized_generators(); if (sys_empty(gs)) return std::string("skipped");
+    const Generator_System& gs = d.minimized_generators(); if (sys_empty(gs)) return std::string();
     Generator_System::const_iterator i = gs.begin(), n = i; for (++n; n != gs.end(); ++n) i = n;
-    if (al) { const Generator& g = *i; d.add_generator(g); } else { Generator g(*i); d.add_generator(g); } return std::string("done"); });
+    if (al) { const Generator& g = *i; d.add_generator(g); } else { Generator g(*i); d.add_generator(g); } return std::string(); });
   alias_pair(A, "relation_with(first of own generators())", false, [](D& d, const D*, bool al) {
-    const Generator_System& gs = d.generators(); if (sys_empty(gs)) return std::string("skipped");
+    const Generator_System& gs = d.generators(); if (sys_empty(gs)) return std::string("true");
     if (al) { const Generator& g = *gs.begin(); return b2s(d.relation_with(g) == PPL::Poly_Gen_Relation::subsumes()); }
     Generator g(*gs.begin()); return b2s(d.relation_with(g) == PPL::Poly_Gen_Relation::subsumes()); });
   A.muts.push_back(M("assign(D(arg.generators()))", true, [](D& d, const D* a) { d = D(a->generators()); return std::string(); }));
@@ -291,14 +291,14 @@ inline void add_domain_specific(ClassAdapter<PPL::Grid>& A, const PPL::Grid*) {
   A.muts.push_back(M("add_grid_generators(arg.grid_generators())", true, [](D& d, const D* a) { d.add_grid_generators(a->grid_generators()); return std::string(); }));
   A.muts.push_back(M("add_grid_generators(arg.minimized_grid_generators())", true, [](D& d, const D* a) { d.add_grid_generators(a->minimized_grid_generators()); return std::string(); }));
   alias_pair(A, "add_grid_generator(first of own grid_generators())", false, [](D& d, const D*, bool al) {
-    const Grid_Generator_System& gs = d.grid_generators(); if (gs.begin() == gs.end()) return std::string("skipped");
-    if (al) { const Grid_Generator& g = *gs.begin(); d.add_grid_generator(g); } else { Grid_Generator g(*gs.begin()); d.add_grid_generator(g); } return std::string("done"); });
+    const Grid_Generator_System& gs = d.grid_generators(); if (gs.begin() == gs.end()) return std::string();
+    if (al) { const Grid_Generator& g = *gs.begin(); d.add_grid_generator(g); } else { Grid_Generator g(*gs.begin()); d.add_grid_generator(g); } return std::string(); });
   alias_pair(A, "relation_with(first of own grid_generators())", false, [](D& d, const D*, bool al) {
-    const Grid_Generator_System& gs = d.grid_generators(); if (gs.begin() == gs.end()) return std::string("skipped");
+    const Grid_Generator_System& gs = d.grid_generators(); if (gs.begin() == gs.end()) return std::string("true");
     if (al) { const Grid_Generator& g = *gs.begin(); return b2s(d.relation_with(g) == PPL::Poly_Gen_Relation::subsumes()); }
     Grid_Generator g(*gs.begin()); return b2s(d.relation_with(g) == PPL::Poly_Gen_Relation::subsumes()); });
   alias_pair(A, "relation_with(first of own congruences())", false, [](D& d, const D*, bool al) {
-    const Congruence_System& cs = d.congruences(); if (cs.begin() == cs.end()) return std::string("skipped");
+    const Congruence_System& cs = d.congruences(); if (cs.begin() == cs.end()) return std::string("true");
     if (al) { const Congruence& g = *cs.begin(); return b2s(d.relation_with(g).implies(PPL::Poly_Con_Relation::is_included())); }
     Congruence g(*cs.begin()); return b2s(d.relation_with(g).implies(PPL::Poly_Con_Relation::is_included())); });
   A.muts.push_back(M("assign(D(arg.grid_generators()))", true, [](D& d, const D* a) { d = D(a->grid_generators()); return std::string(); }));
@@ -373,6 +373,14 @@ inline ClassAdapter<D> domain_alias_adapter(const std::string& name) {
   add_wrap_op(A);
   add_domain_specific(A, (const D*)0);
   add_plain_binary(A);
+  if (DomTraits<D>::grid) {
+    // Grid::constraints() keeps the equalities only and tells that the grid is empty only once that has been
+    // DETECTED (a lazy, const step): what it returns is not a function of the grid's value, so operations fed with
+    // it are not either.  The congruence-based forms (exact descriptions) are kept.
+    drop_named(A, std::vector<std::string>({"add_constraints(arg.", "refine_with_constraints(arg.", "add_constraint(first of own constraints",
+      "refine_with_constraint(last of own minimized_constraints", "relation_with(first of own constraints", "assign(D(arg.constraints()))",
+      "add_recycled_constraints(", "wrap_assign("}));
+  }
   fill_io<D>(A, []() { return new D(0, PPL::UNIVERSE); });
   return A;
 }
@@ -454,9 +462,9 @@ inline void add_powerset_extras(ClassAdapter<PPL::Pointset_Powerset<P> >& A) {
   A.muts.push_back(M("BGP99_extrapolation_assign(arg,widening,2) on a copy of the receiver", true, [](D& d, const D* a) { if (d.space_dimension() != a->space_dimension() || (a != &d && !a->definitely_entails(d))) return std::string("skipped"); D t(d); ps_bgp99(t, *a); return b2s(t.OK()); }, true));
   A.muts.push_back(M("BHZ03_widening_assign(arg,widening) on a copy of the receiver", true, [](D& d, const D* a) { if (d.space_dimension() != a->space_dimension() || (a != &d && !a->definitely_entails(d))) return std::string("skipped"); D t(d); ps_bhz03(t, *a); return b2s(t.OK()); }, true));
   alias_pair(A, "add_disjunct(last of own disjuncts)", false, [](D& d, const D*, bool al) {
-    if (d.begin() == d.end()) return std::string("skipped");
+    if (d.begin() == d.end()) return std::string();
     typename D::const_iterator i = d.begin(), n = i; for (++n; n != d.end(); ++n) i = n;
-    if (al) d.add_disjunct(i->pointset()); else { P c(i->pointset()); d.add_disjunct(c); } return std::string("done"); });
+    if (al) d.add_disjunct(i->pointset()); else { P c(i->pointset()); d.add_disjunct(c); } return std::string(); });
   A.muts.push_back(M("upper_bound_assign_if_exact", true, [](D& d, const D* a) { return b2s(d.upper_bound_assign_if_exact(*a)); }));
   A.muts.push_back(M("drop_disjuncts(begin,end)", false, [](D& d, const D*) { d.drop_disjuncts(d.begin(), d.end()); return std::string(); }));
   A.muts.push_back(M("m_swap(copy of arg)", true, [](D& d, const D* a) { D t(*a); d.m_swap(t); d.m_swap(d); return std::string(); }));
